@@ -209,7 +209,8 @@ func Twin(self string, trace string, out io.Writer) int {
 				}
 			}
 			cls := "none"
-			if pg != "0" {
+			if pg != "0" && (fmt.Sprint(x.Op["k"]) == "delegate" || fmt.Sprint(x.Op["k"]) == "undelegate") {
+				// the known class: the residue is consumed by the next staking hook
 				cls = "stale-global"
 			}
 			fmt.Fprintf(out, "MONITOR hist=%d i=%d op=%v prop=C03 clause=twinDivergence cls=%s fields=%v res=%v/%v\n", hist, x.I, x.Op["k"], cls, fields, x.Res["res"], y.Res["res"])
